@@ -34,6 +34,8 @@ def run(ctx, res):
     res.trusted += ["the pausing scanners skip only blanks (C02.R4 tables)", "driver fact extraction and the abstract interpreter"]
     hull(ctx, res, "C13.R1")
     start_of_file(ctx, res, "C13.R2")
+    deletion.indent_begins_behind_break(ctx, res, "C13.R6")
+    deletion.scanner_tables(ctx, res, "C13.R7", mode="complete")
     empty_line_table(ctx, res, "C13.R3")
     prev_next_tables(ctx, res, "C13.R4")
     deletion.merged_before_delete(ctx, res, "C13.R5")
@@ -151,7 +153,7 @@ def start_of_file(ctx, res, rule):
                 if any(e[0] == "examine" for e in o["effects"]):
                     continue
                 n_paths += 1
-                found = o["exit"] == "break" and isinstance(o["value"], A.Lit) and o["value"].v is True
+                found = o["exit"] == "break" and ((isinstance(o["value"], A.Lit) and o["value"].v is True) or (isinstance(o["value"], A.Variant) and o["value"].name == "Some"))
                 if not found:
                     bad += 1
     if n_paths == 0:
